@@ -221,6 +221,31 @@ const (
 	c39ClassGenesisStateless = "pathdb-rewind-to-genesis-crash-stateless-head"
 )
 
+// cutAfterReorgDelete reports whether the key-value prefix ends right after a batch
+// that only deletes number->hash and tx-lookup entries, i.e. after reorg()'s
+// "delete useless indexes" batch and before the writeHeadBlock batch that follows it.
+func (h *c39Hist) cutAfterReorgDelete(prefix int) bool {
+	evs := h.klog.Events()
+	if prefix < 1 || prefix > len(evs) {
+		return false
+	}
+	e := evs[prefix-1]
+	if e.Kind != crashkv.Batch || len(e.Ops) == 0 {
+		return false
+	}
+	canon := 0
+	for _, op := range e.Ops {
+		switch {
+		case op.Kind == crashkv.Delete && len(op.Key) == 10 && op.Key[0] == 'h' && op.Key[9] == 'n':
+			canon++
+		case op.Kind == crashkv.Delete && len(op.Key) == 33 && op.Key[0] == 'l':
+		default:
+			return false
+		}
+	}
+	return canon > 0
+}
+
 func c39Known(class string) bool {
 	return vs.Known("TestVerifC39Crash", class)
 }
@@ -494,6 +519,21 @@ func (h *c39Hist) persistedBlock(img c39Image, kv ethdb.KeyValueStore) uint64 {
 				if h.sc.Commit > layer {
 					return 0
 				}
+				// ... and the repair only crosses that layer if it lies on the chain below the
+				// head it starts from (a SetHead below the layer, or a head on a side chain that
+				// forked below it, makes the layer unreachable: the repair then ends at genesis
+				// and, with frozen blocks, wipes the chain - policy, not asserted).
+				head, ok := h.byHash[rawdb.ReadHeadBlockHash(kv)]
+				if !ok {
+					return 0
+				}
+				reach := int(head.NumberU64())
+				if !h.onCanon[head.Hash()] && h.sc.ForkAt < reach {
+					reach = h.sc.ForkAt
+				}
+				if layer > reach {
+					return 0
+				}
 			}
 		}
 		return uint64(h.sc.Commit)
@@ -525,7 +565,13 @@ func (h *c39Hist) reopen(rt c39T, img c39Image) (nontrivial bool, class string) 
 	kv := h.klog.Materialize(img.prefix)
 	P := h.persistedBlock(img, kv)
 	if sc.SetHead != nil && h.setHeadAt <= img.prefix && *sc.SetHead < P {
-		P = *sc.SetHead // blocks above the SetHead target were removed on purpose
+		if sc.Scheme == rawdb.HashScheme {
+			// the committed state belongs to a block the SetHead removes on purpose; the hash
+			// scheme cannot roll a state back, so nothing persisted remains below the new head
+			P = 0
+		} else {
+			P = *sc.SetHead // blocks above the SetHead target were removed on purpose
+		}
 	}
 	dir, err := os.MkdirTemp("", "c39-img-")
 	if err != nil {
@@ -545,16 +591,14 @@ func (h *c39Hist) reopen(rt c39T, img c39Image) (nontrivial bool, class string) 
 	// (1) open succeeds
 	db, err := rawdb.Open(kv, rawdb.OpenOptions{Ancient: ancient})
 	if err != nil {
-		if strings.Contains(err.Error(), "ancient chain segments already extracted") && c39Known(c39ClassReorgGap) &&
-			(strings.HasPrefix(img.point.label, "canon[") || strings.HasPrefix(img.point.label, "side")) {
-			if v, _ := kv.Get(append(append([]byte("h"), 0, 0, 0, 0, 0, 0, 0, 1), 'n')); len(v) == 0 {
-				// known finding (same root cause as the marker gap): a reorg down to block 1 was
-				// cut between deleting the old number->hash entries and writing the new head;
-				// with an empty freezer rawdb.Open then takes the missing entry #1 for a sign
-				// of a misplaced ancient store and refuses to start
-				h.excluded++
-				return false, "excluded"
-			}
+		if (strings.Contains(err.Error(), "ancient chain segments already extracted") || strings.Contains(err.Error(), "gap in the chain between ancients")) &&
+			h.cutAfterReorgDelete(img.prefix) && c39Known(c39ClassReorgGap) {
+			// known finding (same root cause as the marker gap): a reorg was cut between
+			// deleting the old number->hash entries and writing the new head; rawdb.Open
+			// takes the missing entry next to the freezer boundary for a sign of a misplaced
+			// or gapped ancient store and refuses to start
+			h.excluded++
+			return false, "excluded"
 		}
 		h.failf(rt, img, "rawdb.Open on the crash image failed: %v", err)
 	}
@@ -660,7 +704,7 @@ func (h *c39Hist) checkCanonical(rt c39T, img c39Image, chain *BlockChain, db et
 	want := hdr.Hash()
 	for n := hdr.Number.Uint64(); ; n-- {
 		got := rawdb.ReadCanonicalHash(db, n)
-		if got == (common.Hash{}) && when == "after recovery" && (strings.HasPrefix(img.point.label, "canon[") || strings.HasPrefix(img.point.label, "side")) {
+		if got == (common.Hash{}) && when == "after recovery" && h.cutAfterReorgDelete(img.prefix) {
 			if c39Known(c39ClassReorgGap) {
 				// known finding: reorg() deletes the canonical markers of the old fork in one
 				// batch and writeHeadBlock moves the head markers in the next one; a crash in
